@@ -478,6 +478,7 @@ pub fn gen_energy(r: &mut Rng, w: &mut World) {
             // small batteries so that the charge runs out (and regenerates) on short routes
             battery_kwh: *r.pick(&[0.5, 2.0, 12.0, 60.0]),
             adjustment: if r.chance(0.5) { Some(many_digits(r, 1.0, 1.5)) } else { None },
+            battery_unit: r.pick(&[None, None, None, Some("gallons_gasoline"), Some("gallons_diesel")]).map(|s| s.to_string()),
         });
     }
     let grade_unit = r.pick(&["decimal", "decimal", "percent", "millis"]).to_string();
